@@ -23,6 +23,10 @@ inductive Err
   | runtime        -- `raise RuntimeError`, or a C++ `std::runtime_error` through the binding
   | typeError      -- a `None` orientation reaching the bound setter (TypeError)
   | zeroDivision   -- `cell_heights[i] % row_height` with a zero row height
+  | valueError     -- `int("x")`, `float("x")`, `a, b, c, d = vals[:4]` with three tokens (text level only)
+  | indexError     -- `nets[-1]` before any `NetDegree` line (text level only)
+  | fileNotFound   -- `open(aux)` on a missing file (FileNotFoundError; file level only)
+  | compressed     -- a `.gz`/`.xz`/`.lzma` name reached `_open_file`: outside the model
 deriving Repr, DecidableEq, Inhabited
 
 def Err.name : Err → String
@@ -30,6 +34,10 @@ def Err.name : Err → String
   | .runtime => "RuntimeError"
   | .typeError => "TypeError"
   | .zeroDivision => "ZeroDivisionError"
+  | .valueError => "ValueError"
+  | .indexError => "IndexError"
+  | .fileNotFound => "FileNotFoundError"
+  | .compressed => "unmodelled-compressed-file"
 
 /-! ## Records -/
 
@@ -287,16 +295,20 @@ def mkCells (rh : Int) : List Int → List Int → List Bool → List Bool → L
 def addNets (nets : List (List Pin)) : List Net :=
   (nets.filter (fun ps => !ps.isEmpty)).map fun ps => ⟨1, 0, ps⟩
 
+/-- the tail of `read_ispd` once the four files have been read: the calls on the bound `Circuit`
+(shared by the record-level and the text-level reader) -/
+def assemble (nd : Nodes) (nets : List (List Pin)) (pl : Place) (rows : List Row) : Except Err Circuit := do
+  let os ← allSome pl.os
+  let rh ← rowHeightOf rows
+  if rh = 0 ∧ nd.heights.any (fun h => !decide (h > 4 * rh)) then throw .zeroDivision
+  pure ⟨mkCells rh nd.widths nd.heights nd.fixed nd.obstruction pl.xs pl.ys os, addNets nets, rows⟩
+
 /-- `Circuit.read_ispd` -/
 def read (f : Files) : Except Err Circuit := do
   let nd ← readNodes f
   let nets ← readNets f nd
   let pl ← readPlace f nd.names
-  let rows := f.rows.map readRow
-  let os ← allSome pl.os
-  let rh ← rowHeightOf rows
-  if rh = 0 ∧ nd.heights.any (fun h => !decide (h > 4 * rh)) then throw .zeroDivision
-  pure ⟨mkCells rh nd.widths nd.heights nd.fixed nd.obstruction pl.xs pl.ys os, addNets nets, rows⟩
+  assemble nd nets pl (f.rows.map readRow)
 
 /-! ## The format's domain and what a round trip is expected to give -/
 
